@@ -1,7 +1,7 @@
 ------------------------------ MODULE Trace_Ops ------------------------------
 (***************************************************************************)
-(* Direction B for the operator-level properties (C03, C04, C05, C07, C08, *)
-(* C09): `harness record ops` executes randomly generated operator         *)
+(* Direction B for the operator-level properties (C03..C10, C14):           *)
+(* `harness record ops` executes randomly generated operator         *)
 (* invocations - shapes beyond the exhaustive bounds of the generators,    *)
 (* random attributes, invalid requests as well - against the real          *)
 (* operators and logs one event per invocation: operator, attributes,      *)
@@ -31,6 +31,14 @@ Explained(e, a) ==
         [] a.must = "value_or_error" -> e.kind = "error" \/ (e.kind = "value" /\ ValueMatches(a.value, e.outs))
         [] a.must = "no_crash"       -> e.kind \in {"value", "error"}
 
+\* the two broadcast helpers (C14) are recorded as pseudo-operators returning both operands
+HelperOps == {"MultidirectionalBroadcast", "UnidirectionalBroadcast"}
+HelperSem(op, A, B) ==
+   IF op = "MultidirectionalBroadcast"
+   THEN (IF BCompat(A.shape, B.shape) THEN LET s == BShape(A.shape, B.shape) IN MustValue(<<BroadcastTo(A, s), BroadcastTo(B, s)>>) ELSE MustError)
+   ELSE (IF UCompat(A.shape, B.shape) THEN MustValue(<<A, BroadcastTo(B, A.shape)>>) ELSE MustError)
+AllowedOf(e) == IF e.op \in HelperOps THEN HelperSem(e.op, e.inputs[1], e.inputs[2]) ELSE NodeSem(e.op, e.attrs, e.inputs, e.nout)
+
 \* defect models of the open findings that concern these operators
 KnownOf(e) ==
    CASE e.op = "MatMul" -> KnownMatMul(e.inputs[1], e.inputs[2])
@@ -46,7 +54,7 @@ MatchesKnown(e, k) ==
 Init == l = 1
 Step ==
    /\ l <= Len(Trace) /\ Ev.ev = "Op"
-   /\ LET a == NodeSem(Ev.op, Ev.attrs, Ev.inputs, Ev.nout) IN
+   /\ LET a == AllowedOf(Ev) IN
       \/ Explained(Ev, a)
       \/ /\ ~Explained(Ev, a)
          /\ \E i \in 1..Len(KnownOf(Ev)) : MatchesKnown(Ev, KnownOf(Ev)[i]) /\ PrintT(<<"KNOWN", KnownOf(Ev)[i].id>>)
